@@ -2,7 +2,7 @@
    Property theorems only. `valid undos text` (Proofs/UndoProofs.v) says: undoing the changes
    of the stack, newest first, is possible on `text` and ends on the empty line; `texts` lists
    the texts that walk passes through. *)
-From RL Require Import UData LineBuffer LineBufferProofs Undo Editor EditorRun UndoProofs UndoEditor.
+From RL Require Import UData LineBuffer LineBufferProofs LineBufferAll Undo Editor EditorRun UndoProofs UndoEditor NoPanic ReadNoPanic MainLoop.
 
 (* main invariant, at the level of the change listener: whatever notifications a line-buffer
    operation sends (they replay on the text, C03), the stack stays a valid script for the new text *)
@@ -82,6 +82,35 @@ Proof. exact abort_is_noop. Qed.
 Print Assumptions C05_abort_is_noop.
 
 (* non-vacuity: type "ab", space, "c"; kill the line backwards; undo twice *)
+(* AN ABORTED INCREMENTAL SEARCH LEAVES EVERYTHING AS IF IT HAD NEVER STARTED (Emacs mode): from a state with the
+   editor's invariant, whatever keys are typed inside the search (characters, Backspace, C-r / C-s, hits replacing
+   the line any number of times), if the search ends without handing a command back (C-g / Esc, or an empty history),
+   then the line, its cursor AND the undo stack are exactly those from before the search -- so every later Undo
+   behaves as if the search had not happened. (In vi mode this is false: known finding K9.) *)
+Theorem C05_search_abort_is_noop :
+  forall (U : UData) (cfg : config), is_emacs cfg = true ->
+  forall (f : nat) (s : est), J s -> Nv cfg s ->
+  match incremental_search U cfg f s with
+  | EPanic => False
+  | EOk r s' => r = None -> e_changes s' = e_changes s /\ buf (e_line s') = buf (e_line s) /\ pos (e_line s') = pos (e_line s)
+  | _ => True
+  end.
+Proof. exact search_abort_is_noop. Qed.
+Print Assumptions C05_search_abort_is_noop.
+
+(* ... and so does an aborted circular completion, for any completer that keeps its contract *)
+Theorem C05_completion_abort_is_noop :
+  forall (U : UData) (cfg : config), is_emacs cfg = true -> c_completion cfg = CTCircular ->
+  (forall text p, bd text p -> bd text (fst (c_complete cfg text p)) /\ fst (c_complete cfg text p) <= p) ->
+  forall (f : nat) (s : est), J s -> Nv cfg s ->
+  match complete_line U cfg f s with
+  | EPanic => False
+  | EOk r s' => r = None -> e_changes s' = e_changes s /\ buf (e_line s') = buf (e_line s) /\ pos (e_line s') = pos (e_line s)
+  | _ => True
+  end.
+Proof. exact completion_abort_is_noop. Qed.
+Print Assumptions C05_completion_abort_is_noop.
+
 Example C05_example :
   let cfg := mk_config Emacs CTCircular true 80 false [] [] VKNone [] in
   let inp := mkIn [] [[Ch 97; Ch 98; Ch 32; Ch 99]; [Ch 21]; [Ch 31]; [Ch 31]; [Ch 13]]%N in
